@@ -91,8 +91,35 @@ Definition u_run_code (a : sx) : sx :=
   | _ => bad_input
   end.
 
+(* unit 211: (prec mode decimals count) -> (in the double-rounding class?  the [prec] digit quotient  round_code  round_q  in the exact class of the HALF modes?) *)
+Definition of_rres (r : rres) : sx := match r with ROk x => ok (of_Q x) | RInvalid => err E_OTHER end.
+Definition u_dr_class (a : sx) : sx :=
+  match a with
+  | L [p; m; d; x] => match as_nat p, as_rmode m, as_nat d, as_Q x with
+                      | Some p, Some m, Some d, Some x =>
+                          ok (L [A (if dr_class p m d x then 1 else 0); of_Q (sig_round p x); of_rres (round_code p true m d x); of_Q (round_q m d x);
+                                 A (if dr_class_half p m d x then 1 else 0)])
+                      | _, _, _, _ => bad_input end
+  | _ => bad_input
+  end.
+
+(* unit 212: (code profile-a profile-b) -> the candidate-set side condition of Chain additivity *)
+Definition u_same_cands (a : sx) : sx :=
+  match a with
+  | L [c; x; y] => match as_ccode c, as_fdict x, as_fdict y with
+                   | Some c, Some x, Some y =>
+                       match run_code c (VF x), run_code c (VF y) with
+                       | CUnmod, _ | _, CUnmod => unmodelled        (* a ballot outside the modelled fragment: not compared *)
+                       | _, _ => ok (A (if same_cands c x y then 1 else 0))
+                       end
+                   | _, _, _ => bad_input end
+  | _ => bad_input
+  end.
+
 Definition u_c13 (k : Z) (a : sx) : sx :=
   match k with
   | 0 => u_run_code a
+  | 1 => u_dr_class a
+  | 2 => u_same_cands a
   | _ => bad_input
   end.
